@@ -18,7 +18,7 @@ import (
 // drivers with ordinary traffic and with termination causes.
 
 type TOp struct {
-	Op      string `json:"op"` // send|sendname|sendalias|call|inspect|sendafter|log|callout|exit|parentexit|kill|err|normal|panic|metastop
+	Op      string `json:"op"` // send|sendname|sendalias|call|inspect|sendafter|log|callout|exit|parentexit|kill|err|normal|panic|metastop|metapanic
 	Prio    int    `json:"prio,omitempty"`
 	DelayMs int    `json:"delay_ms,omitempty"`
 }
@@ -51,7 +51,7 @@ type tMsg struct {
 	Delay int
 }
 
-var terminatingOps = map[string]bool{"exit": true, "parentexit": true, "kill": true, "err": true, "normal": true, "panic": true, "metastop": true}
+var terminatingOps = map[string]bool{"exit": true, "parentexit": true, "kill": true, "err": true, "normal": true, "panic": true, "metastop": true, "metapanic": true}
 
 func genTCase(r *simkit.Rand, tier string, causes bool) *TCase {
 	c := &TCase{}
@@ -116,7 +116,7 @@ func genTCase(r *simkit.Rand, tier string, causes bool) *TCase {
 	for k := 0; k < nc; k++ {
 		cause := simkit.Pick(r, "exit", "parentexit", "kill", "kill", "err", "normal", "panic")
 		if c.Kind == "meta" {
-			cause = simkit.Pick(r, "exit", "kill", "err", "normal", "panic", "metastop", "metastop")
+			cause = simkit.Pick(r, "exit", "kill", "err", "normal", "panic", "metastop", "metastop", "metapanic")
 		}
 		di := r.Intn(len(c.Drivers))
 		d := &c.Drivers[di]
@@ -681,6 +681,18 @@ func (t *tRun) doOp(who string, id int, op TOp, p *Probe) {
 		err = send(t.parent, "do")
 		if p == nil {
 			e.WaitChan(done, time.Minute)
+		}
+	case "metapanic":
+		// Start() of the meta-process panics (at any moment, e.g. while a callback is running)
+		if t.pm != nil {
+			select {
+			case t.pm.Stop <- errMetaStartPanics:
+				t.addCause("panic")
+				t.mu.Lock()
+				t.startReturned = true
+				t.mu.Unlock()
+			default:
+			}
 		}
 	case "metastop":
 		if t.pm != nil {
